@@ -16,8 +16,8 @@ from vlib.core import Stage, fail
 ID = "C16"
 MANIFEST = {
     "category": "fault_enumeration",
-    "text": "Generated fault injection with a differential oracle: deep AHBs x content evaluation results x a drawn non-empty set of nodes (groups, segments, free-text elements, entries of value pools) each receiving a structurally invalid expression (neutral-vs-requirement O/X mix or bare hint/format-constraint pair at any depth; under any indicator; alone, as a later modal-mark part, hidden in a package, or with up to four of its parts - at any depth - written as packages of their own; also every entry of one value pool at once). validate_deep_anwendungshandbuch of the faulted AHB must not raise InvalidExpressionError; compared with the run on the AHB where each injected expression is replaced by 'Kann': NotImplementedError in one iff in the other, same discriminators in the same order, every non-faulted node's result equal (value pools with a faulted entry included: the entry counts as selectable), every faulted group/segment/free-text node reported optional with the reason as hint - the message of the InvalidExpressionError that evaluating the injected expression, with every package body written out in its place, raises on its own under the same content. A third of the cases validate the same faulted AHB a second time, in the same process, under a different content evaluation result. A fifth of the injected faults are invalid because of the evaluator's answer: a requirement constraint answered NEUTRAL next to a boolean operand in O / X.",
-    "note": "Trusted: gen.g_dom_invalid / ref.validity (the injected expressions are invalid by the structural criterion of C06), attrs equality of results. Faults are sampled, not enumerated exhaustively: subsets of up to 5 nodes per tree. Process configuration by shard (vlib/sut.py; recorded in replay files): plain / parse caches preheated beyond their size / warnings attributed to ahbicht raised as errors / logging fully enabled with every record rendered; one event loop per process or a new one per call; five process time zones; the hash seed is the shard number; namesakes of ahbicht's marshmallow schema classes are registered.",
+    "text": "Generated fault injection with a differential oracle: deep AHBs x content evaluation results x a drawn non-empty set of nodes (groups, segments, free-text elements, entries of value pools) each receiving a structurally invalid expression (neutral-vs-requirement O/X mix or bare hint/format-constraint pair at any depth; under any indicator; alone, as a later modal-mark part, hidden in a package, or with up to four of its parts - at any depth - written as packages of their own; also every entry of one value pool at once). validate_deep_anwendungshandbuch of the faulted AHB must not raise InvalidExpressionError; compared with the run on the AHB where each injected expression is replaced by 'Kann': NotImplementedError in one iff in the other, same discriminators in the same order, every non-faulted node's result equal (value pools with a faulted entry included: the entry counts as selectable), every faulted group/segment/free-text node reported optional with the reason as hint - the message of the InvalidExpressionError that evaluating the injected expression, with every package body written out in its place, raises on its own under the same content. A third of the cases validate the same faulted AHB a second time, in the same process, under a different content evaluation result. A fifth of the injected faults are invalid because of the evaluator's answer: a requirement constraint answered NEUTRAL next to a boolean operand in O / X. Expressions whose parts are written as packages are made binary first (explicit brackets): the grouping inside a run of one operator is unspecified and decides which offending pair is met first.",
+    "note": "Trusted: gen.g_dom_invalid / ref.validity (the injected expressions are invalid by the structural criterion of C06), attrs equality of results. Faults are sampled, not enumerated exhaustively: subsets of up to 5 nodes per tree. Process configuration by shard (vlib/sut.py; recorded in replay files): plain / parse caches preheated beyond their size / warnings attributed to ahbicht raised as errors / logging fully enabled with every record rendered; one event loop per process or a new one per call; five process time zones; the hash seed is the shard number; namesakes of ahbicht's marshmallow schema classes are registered. Every registry of evaluators / providers / resolvers that the harness builds (sut.configure) also holds one of each kind that names no EDIFACT format and no format version; these must never be asked.",
     "technique": "property-based fault injection with a differential oracle (faulted AHB vs the same AHB with 'Kann' at the faulted nodes)",
 }
 LEVEL = "fault_enumeration"
@@ -142,6 +142,17 @@ def check_once(case, cer):
     return info
 
 
+def _binary(ast):
+    """the same expression with every n-ary operator node nested to the left: ((a X b) X c)"""
+    if ref.is_atom(ast):
+        return ast
+    children = [_binary(child) for child in ast[1]]
+    node = [ast[0], children[:2]]
+    for child in children[2:]:
+        node = [ast[0], [node, child]]
+    return node
+
+
 def _subtree_sizes(tree):
     sizes = {}
 
@@ -223,6 +234,9 @@ def strategy(tier):
             elif style == "packaged-parts":
                 # several parts of the invalid expression (at any depth, next to each other or not) are written as
                 # packages; the expression that is evaluated is the one with the bodies in their places (C10)
+                # (operator nodes are made binary first: how a run of one operator is grouped is not specified, and which
+                # of two offending pairs is reported first depends on it)
+                invalid = _binary(invalid)
                 paths = [path for path, node in ref.sites(invalid)
                          if not (path and ref.node_at(invalid, path[:-1])[0] == "then" and node[0] == "fc")]
                 picked = []
